@@ -1112,6 +1112,7 @@ func (w *World) connect(c *simClient) bool {
 	w.nconn++
 	c.connGen++
 	conn := newConn(w.nconn, addr, fmt.Sprintf("10.0.0.%d:%d", c.idx+1, 40000+w.nconn), &w.step)
+	conn.yield = func(site string) { w.sched.park(nil, site) }
 	if !w.net.dial(addr, conn) {
 		w.logf("C c%d connect-refused", c.idx)
 		return false
